@@ -21,7 +21,10 @@ impl<'a> ExpressionEvaluator<'a> {
     }
 
     pub fn evaluate_expression(&mut self) -> Result<Value, TracedInterpreterError> {
-        self.evaluate_logical_or_expression()
+        self.program().enter_nested()?;
+        let result = self.evaluate_logical_or_expression();
+        self.program().leave_nested();
+        result
     }
 
     pub fn evaluate_array_index(&mut self) -> Result<Vec<usize>, TracedInterpreterError> {
